@@ -207,7 +207,7 @@ pub fn produce(r: &mut Rng, out: &mut String, b: &str, t: &[(u32, u32)], which: 
                 writeln!(out, "new {}", b).unwrap();
                 for &(s, l) in t {
                     if l > 3 {
-                        writeln!(out, "insert_range {} in:{} ex:{}", b, s, s as u64 + l as u64).unwrap();
+                        writeln!(out, "insert_range {} in:{} in:{}", b, s, s as u64 + l as u64 - 1).unwrap();
                     } else {
                         for i in 0..l {
                             writeln!(out, "push {} {}", b, s + i).unwrap();
@@ -229,10 +229,10 @@ pub fn produce(r: &mut Rng, out: &mut String, b: &str, t: &[(u32, u32)], which: 
                     // two overlapping pieces
                     let a_end = s as u64 + (2 * l as u64) / 3;
                     let b_start = s as u64 + l as u64 / 3;
-                    writeln!(out, "insert_range {} in:{} ex:{}", b, b_start, s as u64 + l as u64).unwrap();
-                    writeln!(out, "insert_range {} in:{} ex:{}", b, s, a_end).unwrap();
+                    writeln!(out, "insert_range {} in:{} in:{}", b, b_start, s as u64 + l as u64 - 1).unwrap();
+                    writeln!(out, "insert_range {} in:{} in:{}", b, s, a_end - 1).unwrap();
                 } else {
-                    writeln!(out, "insert_range {} in:{} ex:{}", b, s, s as u64 + l as u64).unwrap();
+                    writeln!(out, "insert_range {} in:{} in:{}", b, s, s as u64 + l as u64 - 1).unwrap();
                 }
             }
             "sparse-then-overlapping-ranges"
@@ -388,7 +388,7 @@ pub fn produce(r: &mut Rng, out: &mut String, b: &str, t: &[(u32, u32)], which: 
             // clone of a value built by ranges, after the destination held something else
             writeln!(out, "new b9").unwrap();
             for &(s, l) in t {
-                writeln!(out, "insert_range b9 in:{} ex:{}", s, s as u64 + l as u64).unwrap();
+                writeln!(out, "insert_range b9 in:{} in:{}", s, s as u64 + l as u64 - 1).unwrap();
             }
             // the destination holds something else first: chunks of either kind at the same keys / positions as the
             // source's chunks, with different cardinalities (Clone::clone_from reuses the destination's buffers)
